@@ -61,6 +61,27 @@ def delim_text(r):
     return t
 
 
+def quote_text(r):
+    lines = []
+    for _ in range(r.randint(1, 3)):
+        parts = []
+        for _ in range(r.randint(2, 12)):
+            k = r.random()
+            if k < 0.35:
+                parts.append(r.choice(['"', '"', "'", "`", '""']))
+            elif k < 0.5:
+                parts.append("\\" * r.randint(1, 3) + r.choice(['"', "'", "x", ""]))
+            elif k < 0.8:
+                parts.append(r.choice(["a", "bc", "é", "日", "_"]))
+            else:
+                parts.append(r.choice([" ", "  ", "\t"]))
+        lines.append("".join(parts))
+    t = "\n".join(lines)
+    if r.random() < 0.7:
+        t += "\n"
+    return t
+
+
 def command(r):
     k = r.random()
     reg = r.choice(REGS)
@@ -318,6 +339,14 @@ def run(tier, seed, replay=None):
             steps.append(pos)
             steps.append(op + mot + ("X<esc>" if op == "c" else "d" if op == "v" else ""))
         cases.append({"text": text, "steps": steps, "regs": {}, "cursor": 0})
+    for _ in range(200 if tier == "quick" else 4000):
+        text = quote_text(dr)
+        steps = []
+        for _ in range(dr.randint(1, 3)):
+            steps.append((["j", "k", "0", "$", "w", "b"][dr.randrange(6)] if dr.random() < 0.3 else "%d|" % dr.randint(1, 20)))
+            op = dr.choice(["d", "y", "c", "g~", "v"])
+            steps.append(op + dr.choice(["i", "a"]) + dr.choice(['"', '"', "'", "`"]) + ("X<esc>" if op == "c" else "d" if op == "v" else ""))
+        cases.append({"text": text, "steps": steps, "regs": {}, "cursor": 0})
     if replay:
         rp = json.load(open(replay))
         c = rp.get("case") or {}
@@ -509,6 +538,11 @@ def run(tier, seed, replay=None):
                     xreqs.append({"op": "textobj_delim", "gs": gs, "cur": t["cur"]["value"], "excl": t["cur"]["exclusive"], "ws": [is_ws(g) for g in gs],
                                   "opener": oc[0], "closer": oc[1], "around": mm.group(3) == "Around"})
                     xmeta.append((c, t, "textobj_delim", None))
+                mm = re.search(r"motion=Some\(MotionCmd\((\d+), TextObj\((DoubleQuote|SingleQuote|BacktickQuote)\((Inside|Around)\)\)\)\) flags=", t["cmd"])
+                if mm:
+                    xreqs.append({"op": "textobj_quote", "gs": gs, "cur": t["cur"]["value"], "excl": t["cur"]["exclusive"], "ws": [is_ws(g) for g in gs],
+                                  "q": {"DoubleQuote": '"', "SingleQuote": "'", "BacktickQuote": "`"}[mm.group(2)], "around": mm.group(3) == "Around"})
+                    xmeta.append((c, t, "textobj_quote", None))
                 mm = re.search(r"motion=Some\(MotionCmd\((\d+), TextObj\(Word\((Normal|Big), (Inside|Around)\)\)\)\) flags=", t["cmd"])
                 if mm:
                     xreqs.append({"op": "textobj_word", "cls": [4 if g == "\n" else cls(g) for g in gs], "cur": t["cur"]["value"], "big": mm.group(2) == "Big", "around": mm.group(3) == "Around"})
